@@ -100,7 +100,9 @@ Definition write_message_gen (dst payload : bytes) (op : opcode) (fin mask : boo
     else if payload_len <=? WS_W_LEN16_MAX then
       dst ++ [one; N.lor two WS_W_LEN16_MARKER] ++ to_be 2 (payload_len mod 65536)
     else dst ++ [one; N.lor two WS_W_LEN64_MARKER] ++ to_be 8 (payload_len mod 2 ^ 64) in
-  if mask then dst1 ++ key ++ apply_mask payload key
+  if mask then
+    let dst3 := (dst1 ++ key) ++ payload in
+    mask_from dst3 (lenN dst3 - payload_len) key
   else dst1 ++ payload.
 
 Lemma write_message_tie : forall dst payload op fin mask key,
